@@ -451,7 +451,7 @@ FLOW_MIN, FLOW_MAX = 1e-3, 1e3
 TASK_KINDS = {
     # kind: weight of being instantiated in a run, per property
     'C03': {'flash': 4, 'recycle': 3, 'campaign': 3, 'decanter': 2, 'crystalliser': 2, 'vlle': 1, 'editor': 3},
-    'C04': {'flash': 5, 'recycle': 4, 'campaign': 3, 'decanter': 1, 'crystalliser': 1, 'vlle': 0.5, 'editor': 3},
+    'C04': {'flash': 5, 'recycle': 4, 'campaign': 4.5, 'decanter': 1, 'crystalliser': 1, 'vlle': 0.5, 'editor': 3},
 }
 EDITOR_OPS = {'scale': 2, 'to_phase': 2, 'set_phases': 2, 'set_T': 1, 'set_P': 1, 'restart': 2,
               'reset_cache': 1.5, 'set_rows': 1, 'set_flow': 2, 'set_chem': 1.5}
@@ -747,10 +747,21 @@ class EqWorld(BaseWorld):
                 return self.gen_perturb(name, r)
             return self.gen_vle(name, t, st, r, keep=0.8)
         if kind == 'campaign':
+            # a campaign changes the SET of chemicals between flashes: by one chemical, or (swap) by taking one
+            # out and putting another in, so that the solver meets another set of the same size
+            if st.get('swap_pending'):
+                st['swap_pending'] = False
+                st['step'] -= 1
+                return self.gen_set_chem(name, r, force='add')
             m = st['step'] % 3
             if m == 1:
+                if r.random() < 0.5:
+                    ev = self.gen_set_chem(name, r, force='remove')
+                    if ev is not None:
+                        st['swap_pending'] = True
+                    return ev
                 return self.gen_set_chem(name, r)
-            return self.gen_vle(name, t, st, r, keep=0.5)
+            return self.gen_vle(name, t, st, r, keep=0.6)
         if kind == 'decanter':
             return self.gen_lle(name, st, r)
         if kind == 'crystalliser':
@@ -1020,7 +1031,7 @@ class EqWorld(BaseWorld):
             return None            # would empty the stream
         return {'op': 'set_flow', 'stream': name, 'phase': ph, 'chem': pk.ids[k], 'value': val}
 
-    def gen_set_chem(self, name, r):
+    def gen_set_chem(self, name, r, force=None):
         """Add or remove a chemical as a whole: the set of non-zero chemicals changes."""
         pk = self.pk(name)
         try:
@@ -1036,6 +1047,10 @@ class EqWorld(BaseWorld):
             removable = [k for k in present if pk.lock[k] is not None or nvol > 1]
         else:
             removable = present if len(present) > 1 else []
+        if force == 'remove':
+            absent = []
+        elif force == 'add':
+            removable = []
         if absent and (not removable or r.random() < 0.55):
             k = r.choice(absent)
             if self.prop == 'C04':
@@ -1348,6 +1363,8 @@ class EqWorld(BaseWorld):
             self.stats['probe:solver_left_through_iteration_cap'] += 1
         if self.main_obs and self.main_obs['outer_capped']:
             self.stats['probe:outermost_solver_left_through_iteration_cap'] += 1
+        if self.main_obs and (self.main_obs['outer_capped'] or self.main_obs['last'].get('aitken')):
+            self.stats['probe:result_from_unconverged_solver'] += 1
         if fired:
             self.stats['fault:' + ev['fault']['kind']] += 1
             self.stats['fault_site:' + ev['fault']['site']] += 1
@@ -1600,10 +1617,11 @@ class EqWorld(BaseWorld):
 
     def capped(self, obs, detail=None):
         """Second identification of the listed known finding KF-C04-4, by call site: during the judged
-        call the OUTERMOST solver was seen (seam S3, passive) to leave through its iteration cap, which thermosteam lets
+        call the OUTERMOST solver, or the LAST inner composition solve (aitken), was seen (seam S3, passive) to leave
+        unconverged - through its iteration cap or its 'error is growing' exit - which thermosteam lets
         pass silently (checkiter=False).  The result of such a call is unconverged by construction; a missed
         tolerance clause is then that finding, whether or not a brand-new stream happens to converge."""
-        if CAP_REGION not in self.regions or not obs or not obs.get('outer_capped'):
+        if CAP_REGION not in self.regions or not obs or not (obs.get('outer_capped') or obs.get('last', {}).get('aitken')):
             return False
         self.stats['region:' + CAP_REGION] += 1
         return True
